@@ -189,6 +189,7 @@ class CompileGroup:
             self._emit_crate(n, rcr[n])
         # ---- expected accept and control copies: drop failing items until the crates build
         failed_acc = {}
+        failed_ctx = {}  # id -> the items which preceded it in its crate when it failed
         control_failed = {}
         for rnd in range(6):
             built, by, rest = self._batch(live, "build", use_control=True)
@@ -199,6 +200,8 @@ class CompileGroup:
                     control_failed[cid] = errs
                 else:
                     failed_acc[cid] = errs
+                    ids = [x.id for x in live[crate]]
+                    failed_ctx[cid] = live[crate][:ids.index(cid)] if cid in ids else []
             for n in live:
                 bad = control_failed if n.startswith("ctl") else failed_acc
                 live[n] = [it for it in live[n] if it.id not in bad]
@@ -213,6 +216,13 @@ class CompileGroup:
         for cid, errs in failed_acc.items():
             ok, errors = self.confirm_alone(by_id[cid])
             results[cid] = {"outcome": "accept" if ok else "reject", "errors": errors or errs, "alone": True}
+            if ok and failed_ctx.get(cid):
+                # compiles alone but failed in its crate: rebuild it after the items which preceded it there.  The
+                # derive must not carry state from one expansion to the next (a user's crate holds many enums).
+                ok2, errors2 = self.confirm_alone(by_id[cid], context=failed_ctx[cid])
+                if not ok2:
+                    results[cid] = {"outcome": "reject", "errors": errors2, "alone": True, "context_dependent": True,
+                                    "context_items": len(failed_ctx[cid])}
         # ---- expected reject: screen in batches, re-batch what shows no error, isolate the rest
         pending = list(rej)
         rnd = 0
@@ -255,7 +265,9 @@ class CompileGroup:
             results[cid]["control_errors"] = errs
         return results
 
-    def confirm_alone(self, it: Item, cmd="build"):
+    def confirm_alone(self, it: Item, cmd="build", context=()):
+        """build the item in a crate of its own; with `context` (the items which preceded it in its batch crate)
+        the crate holds those first and only errors attributed to the item itself count"""
         iso = os.path.join(WORK, "iso-%s-%s-%06d" % (self.name, self.tier, it.id))
         shutil.rmtree(iso, ignore_errors=True)
         try:
@@ -268,11 +280,19 @@ class CompileGroup:
                 if lib in it.deps:
                     deps[lib] = self._lib_dep(lib)
             write_if_changed(os.path.join(cdir, "Cargo.toml"), crate_manifest("one", deps))
-            lib = "#![allow(dead_code, unused_imports, unused_variables, unreachable_patterns, non_camel_case_types, non_upper_case_globals)]\npub mod k%06d;\n" % it.id
+            lib = "#![allow(dead_code, unused_imports, unused_variables, unreachable_patterns, non_camel_case_types, non_upper_case_globals)]\n"
+            for x in list(context) + [it]:
+                lib += "pub mod k%06d;\n" % x.id
+                for lname in self.libs:
+                    if lname in x.deps:
+                        deps[lname] = self._lib_dep(lname)
+                if "monitor_core" in x.deps:
+                    deps["monitor_core"] = "{ path = \"%s/monitor_core\" }" % VERIF
+                write_if_changed(os.path.join(cdir, "src", "k%06d.rs" % x.id), x.text)
             if it.meta.get("no_std"):
                 lib = "#![no_std]\n" + lib
+            write_if_changed(os.path.join(cdir, "Cargo.toml"), crate_manifest("one", deps))
             write_if_changed(os.path.join(cdir, "src", "lib.rs"), lib)
-            write_if_changed(os.path.join(cdir, "src", "k%06d.rs" % it.id), it.text)
             rc, msgs, err, secs = build.run_cargo(
                 iso, [cmd, "--offline", "-p", "one"],
                 env={"CARGO_TARGET_DIR": os.path.join(self.root, "target-iso")}, timeout=3600)
@@ -280,6 +300,10 @@ class CompileGroup:
             errors = build.compiler_errors(msgs)
             if rc != 0 and not errors:
                 raise Inconclusive("isolated build of item %d failed without diagnostics: %s" % (it.id, err[-2000:]))
+            if context:
+                by_case, _ = build.attribute(errors)
+                mine = by_case.get(it.id, [])
+                return not mine, mine
             return rc == 0, errors
         finally:
             shutil.rmtree(iso, ignore_errors=True)
